@@ -61,7 +61,7 @@ PROPS = {
                   "Lean 4 theorems (event composition of build_app_response / sub-message folding, bank event, invertibility of the protobuf encoders incl. varint) + byte-exact differential correspondence of events and data",
                   "The composition rules are the model's definitions, pinned by theorems, and the wire encoders are proved invertible; byte-exact comparison of AppResponse.events/.data and of what every reply received ties them to the code over generated trees with attributes, custom events and data present/absent/empty.",
                   _GEN + "non-trivial = at least one reply handler was invoked", nt="nt_wasm"),
-    "C05": _entry("C05", "CwMt.Props.C05", [("wasm", 8000, 80000)], "pred_c05",
+    "C05": _entry("C05", "CwMt.Props.C05", [("wasm", 8000, 80000), ("wasm-bech", 1500, 15000)], "pred_c05",
                   "Lean 4 theorems over the ghost trace (sender authenticity and environment by mutual induction over the engine; funds moved before the call; insufficient funds => no call) + differential correspondence of recorded (sender, funds, address, block)",
                   "Sender authenticity and environment are proved for every entry in the trace of any execution of the model; the scripted contracts record what the real engine told them and the transcripts must agree, with blocks changed between transactions.",
                   _GEN + "non-trivial = at least one reply handler was invoked", nt="nt_wasm"),
@@ -73,10 +73,10 @@ PROPS = {
                   "Lean 4 theorems (query has no state output by type; the snapshot a contract gets is the enclosing transaction's current state) + differential correspondence of query answers recorded mid-transaction, each App query issued twice and bracketed by raw-storage hashes",
                   "Purity is a typing fact of the model and visibility is proved on the engine; contracts issue bank/raw/smart/info/code queries at random points of generated trees (after funds transfer, after completed and after caught-failed sub-messages) and their recorded answers must equal the model's.",
                   _GEN + "App-level queries are asked twice and bracketed by raw hashes", nt="nt_wasm"),
-    "C11": _entry("C11", "CwMt.Props.C11", [("wasm-codes", 4000, 40000), ("wasm", 3000, 30000)], "pred_c11",
+    "C11": _entry("C11", "CwMt.Props.C11", [("wasm-codes", 4000, 40000), ("wasm-bech-codes", 1500, 15000), ("wasm", 3000, 30000)], "pred_c11",
                   "Lean 4 theorems (registry invariant, auto/explicit ids, usability of any stored id, fresh address, classic/salted address inputs, salted repeat rejected, recorded metadata) + differential correspondence on store/duplicate/instantiate(2) histories",
                   "Identifier and address discipline is proved on the registry/registration model with the address generators as parameters; histories with non-contiguous ids, id 0, duplicates, u64::MAX, salts, repeats, failing and rolled-back instantiations are run on the real App and compared.",
-                  "2-6 store_code / store_code_with_id (ids 0,1,2,3,5,10,11,40,u64::MAX) / duplicate_code calls, then 3-9 instantiate / instantiate2 (salts aa, bb, empty, 65 bytes; repeats) of stored and unknown ids with failing scripts, nested instantiations, insufficient funds, empty labels; CodeInfo for every id; migrate to non-contiguous ids"),
+                  "2-6 store_code / store_code_with_id (ids 0,1,2,3,5,10,11,40,u64::MAX) / duplicate_code calls, then 3-9 instantiate / instantiate2 (salts aa, bb, empty, 65 bytes; repeats) of stored and unknown ids with failing scripts, nested instantiations, insufficient funds, empty labels; CodeInfo for every id; migrate to non-contiguous ids; codes carrying their own checksum (Contract::checksum); slice wasm-bech-codes repeats the histories on an App built with MockApiBech32(\"juno\")"),
     "C12": _entry("C12", "CwMt.Props.C12", [("wasm-admin", 4000, 40000), ("wasm", 3000, 30000)], "pred_c12",
                   "Lean 4 theorems (authorisation of Migrate/UpdateAdmin/ClearAdmin, exact effect and immediacy of admin changes, migration runs the newly recorded code on the existing storage) + differential correspondence on admin histories",
                   "Authorisation is proved for every sender and state on the model; sequences of admin operations by admins, former admins, strangers and contracts acting via sub-messages are run on the real App, with code tags making the serving code observable.",
